@@ -86,7 +86,7 @@ def replay(prop, path, mod):
     out = p.stdout.decode("utf-8", "replace")
     err = p.stderr.decode("utf-8", "replace")
     sys.stdout.write(out)
-    sys.stdout.write(err[-8000:])
+    sys.stdout.write(err[-int(os.environ.get("VERIF_REPLAY_TAIL", "8000")):])
     keys = [ln.split()[2] for ln in out.splitlines() if ln.startswith("V ")]
     keys += vdriver.sanitizer_keys(err)
     if doc["key"] in keys:
